@@ -41,7 +41,9 @@ func Bodies(c *core.Ctx, pkgPath string) []Body {
 			if fd.Recv != nil && len(fd.Recv.List) == 1 {
 				name = "(" + core.NamedTypeName(pk.TypesInfo.TypeOf(fd.Recv.List[0].Type)) + ")." + name
 			}
-			out = append(out, Body{Name: name, Decl: fd, G: cfgq.New(c.Fset, pk.TypesInfo, fd.Body, cfgq.NR(c.Program))})
+			gg := cfgq.New(c.Fset, pk.TypesInfo, fd.Body, cfgq.NR(c.Program))
+			gg.Prog = c.Program
+			out = append(out, Body{Name: name, Decl: fd, G: gg})
 			i := 0
 			ast.Inspect(fd.Body, func(n ast.Node) bool {
 				if fl, ok := n.(*ast.FuncLit); ok {
@@ -339,6 +341,36 @@ func ClampFunc(c *core.Ctx, rule string, fn *core.Fn, spec ClampSpec) {
 	binds["_offset"] = results[1]
 
 	body := fn.Decl.Body.List
+	// a pure wrapper `return helper(args...)` around a same-package clamp helper: analyse
+	// the helper with its parameters replaced by the wrapper's arguments
+	subst := map[types.Object]ast.Expr{}
+	if len(body) == 1 {
+		if ret, ok := body[0].(*ast.ReturnStmt); ok && len(ret.Results) == 1 {
+			if call, ok := ast.Unparen(ret.Results[0]).(*ast.CallExpr); ok {
+				if f := core.CalleeFunc(info, call); f != nil && f.Pkg() != nil && f.Pkg().Path() == fn.Pkg.PkgPath {
+					if h := c.FnOf(f); h != nil && h.Decl.Body != nil && h.Decl.Type.Results != nil {
+						var hp, hr []*ast.Ident
+						for _, fl := range h.Decl.Type.Params.List {
+							hp = append(hp, fl.Names...)
+						}
+						for _, fl := range h.Decl.Type.Results.List {
+							hr = append(hr, fl.Names...)
+						}
+						if len(hp) == len(call.Args) && len(hr) == 2 {
+							for i, p := range hp {
+								subst[info.Defs[p]] = call.Args[i]
+							}
+							binds["_maxlen"], binds["_offset"] = hr[0], hr[1]
+							results = hr
+							body = h.Decl.Body.List
+						}
+					}
+				}
+			}
+		}
+	}
+	sub := func(e ast.Expr) ast.Expr { return substitute(info, e, subst) }
+	_ = sub
 	// classify each top-level statement
 	var clampTerms []ast.Expr
 	initOK, offOK := false, false
@@ -349,13 +381,16 @@ func ClampFunc(c *core.Ctx, rule string, fn *core.Fn, spec ClampSpec) {
 	for _, st := range body {
 		switch s := st.(type) {
 		case *ast.AssignStmt:
-			if pInit.Match(info, s, binds) != nil {
-				initOK = true
-				continue
-			}
-			if pOff.Match(info, s, binds) != nil {
-				offOK = true
-				continue
+			if len(s.Lhs) == 1 && len(s.Rhs) == 1 {
+				s2 := &ast.AssignStmt{Lhs: s.Lhs, Tok: s.Tok, TokPos: s.TokPos, Rhs: []ast.Expr{sub(s.Rhs[0])}}
+				if pInit.Match(info, s2, binds) != nil {
+					initOK = true
+					continue
+				}
+				if pOff.Match(info, s2, binds) != nil {
+					offOK = true
+					continue
+				}
 			}
 			// an assignment to offset of a different form
 			if len(s.Lhs) == 1 && pat.Same(info, s.Lhs[0], results[1]) {
@@ -380,10 +415,10 @@ func ClampFunc(c *core.Ctx, rule string, fn *core.Fn, spec ClampSpec) {
 						b2[k] = v
 					}
 					if pat.Expr("_n < _maxlen").Match(info, s.Cond, b2) != nil && pClampN.Match(info, s.Body.List[0], b2) != nil {
-						term, okShape = as.Rhs[0], true
+						term, okShape = sub(as.Rhs[0]), true
 					} else if pClampN.Match(info, s.Body.List[0], b2) != nil {
 						c.Failf(rule, name+"/clamp-guard", s.Pos(), "maxlen may only be lowered: the guard must be `n < maxlen`; found `%s`", c.Src(s.Cond))
-						term, okShape = as.Rhs[0], true
+						term, okShape = sub(as.Rhs[0]), true
 					}
 				} else if s.Init == nil {
 					if be, ok := ast.Unparen(s.Cond).(*ast.BinaryExpr); ok {
@@ -399,7 +434,7 @@ func ClampFunc(c *core.Ctx, rule string, fn *core.Fn, spec ClampSpec) {
 								if pat.Expr("_n < _maxlen").Match(info, s.Cond, b2) == nil {
 									c.Failf(rule, name+"/clamp-guard", s.Pos(), "maxlen may only be lowered: the guard must be `n < maxlen`; found `%s`", c.Src(s.Cond))
 								}
-								term, okShape = cand, true
+								term, okShape = sub(cand), true
 							}
 						}
 					}
@@ -411,7 +446,7 @@ func ClampFunc(c *core.Ctx, rule string, fn *core.Fn, spec ClampSpec) {
 			}
 			clampTerms = append(clampTerms, term)
 		case *ast.ReturnStmt:
-			if len(s.Results) != 0 {
+			if len(s.Results) != 0 && !(len(s.Results) == 2 && pat.Same(info, s.Results[0], results[0]) && pat.Same(info, s.Results[1], results[1])) {
 				unknown = c.Src(s)
 			}
 		default:
@@ -557,4 +592,36 @@ func CondOps(c *core.Ctx, info *types.Info, n ast.Node, methods ...string) []str
 		}
 	}
 	return out
+}
+
+// substitute returns a copy of e in which identifiers denoting the objects in
+// m are replaced by the mapped expressions (parameter binding of a wrapper).
+func substitute(info *types.Info, e ast.Expr, m map[types.Object]ast.Expr) ast.Expr {
+	if len(m) == 0 || e == nil {
+		return e
+	}
+	switch x := e.(type) {
+	case *ast.Ident:
+		if r, ok := m[info.Uses[x]]; ok {
+			return &ast.ParenExpr{X: r}
+		}
+		return x
+	case *ast.ParenExpr:
+		return &ast.ParenExpr{X: substitute(info, x.X, m)}
+	case *ast.BinaryExpr:
+		return &ast.BinaryExpr{X: substitute(info, x.X, m), Op: x.Op, OpPos: x.OpPos, Y: substitute(info, x.Y, m)}
+	case *ast.UnaryExpr:
+		return &ast.UnaryExpr{Op: x.Op, OpPos: x.OpPos, X: substitute(info, x.X, m)}
+	case *ast.CallExpr:
+		args := make([]ast.Expr, len(x.Args))
+		for i, a := range x.Args {
+			args[i] = substitute(info, a, m)
+		}
+		return &ast.CallExpr{Fun: x.Fun, Lparen: x.Lparen, Args: args, Ellipsis: x.Ellipsis, Rparen: x.Rparen}
+	case *ast.SelectorExpr:
+		return &ast.SelectorExpr{X: substitute(info, x.X, m), Sel: x.Sel}
+	case *ast.IndexExpr:
+		return &ast.IndexExpr{X: substitute(info, x.X, m), Index: substitute(info, x.Index, m)}
+	}
+	return e
 }
